@@ -389,6 +389,9 @@ fn eval_e2e(rt: &tokio::runtime::Runtime, e: &Sexp, warrs: &[WArr], n: usize) ->
     });
     match r {
         Err(_) => "panic".into(),
+        // since /repo 4225762 a panic inside an operator task reaches the caller as
+        // `Err("... operator panicked: ...")`; it stays the outcome class `panic` here
+        Ok(Err(m)) if m.starts_with("ERR ") && m.contains("operator panicked") => "panic".into(),
         Ok(Err(m)) if m.starts_with("ERR ") => "err".into(),
         Ok(Err(m)) => format!("harness-error {m}"),
         Ok(Ok(chunks)) => {
